@@ -20,7 +20,7 @@ from . import c01
 
 LEVEL = 'model_checking'
 MODES = ['yes', 'deps', 'forced', 'forced-deps', 'forced-fallback', 'packages=lib']
-U_ACTIONS = ['e:libscript', 'e:srcmod', 'e:toolpath', 'e:provide', 'dirty', 'upstream', 'hostB']
+U_ACTIONS = ['e:libscript', 'e:srcmod', 'e:toolpath', 'e:provide', 'e:toolscript', 'dirty', 'upstream', 'hostB']
 
 
 def collect_ids(proj):
@@ -49,10 +49,10 @@ def universe_worker(job):
     ids = []            # (where, package, build-id, content hash)
     refcache = {}
 
-    def bob(D, v, extra):
+    def bob(D, v, extra, nonce=None):
         nonlocal nrun
         open(base + '/log', 'w').close()
-        rc, out = e1.run_bob(D.d, ['build'] + extra + ['root'] + w7.args(v, base), env)
+        rc, out = e1.run_bob(D.d, ['build'] + extra + ['root'] + w7.args(v, base), dict(env, VERIF_NONCE=nonce) if nonce else env)
         nrun += 1
         return rc, out, e1.read_log(base + '/log')
 
@@ -73,6 +73,39 @@ def universe_worker(job):
             refcache[key] = res[0]
         return refcache[key]
 
+    if uhist == ('wrongpred',):
+        # a live build-id prediction that turns out wrong: the uploader's checkout of dl (declared deterministic) differs from the
+        # downloader's.  Predictions are trusted as long as an artifact is found, so the artifacts of root and dl are removed:
+        # root has to be built and needs dl first, dl gets checked out, the mismatch is noticed - and lib2/app, whose Build-Ids
+        # derive from the wrong prediction, must not be taken from the archive
+        v = w1.zero(); v['lib2'] = 1
+        w7.set_host(base, 'hostA')
+        U = e1.Dir(base + '/u/proj'); U.reset(); U.sync(w7.files(v, base))
+        rc, out, log = bob(U, v, ['--upload'], nonce='old')
+        if rc != 0: return job, nrun, [('uploader-build-fails', out[-300:])], 0
+        gone = 0
+        for p, b, c in collect_ids(U.d):
+            if p in ('dl', 'root'):
+                ap = os.path.join(base, 'archive', b[0:2], b[2:4], b[4:] + '-1.tgz')
+                if os.path.exists(ap): os.unlink(ap); gone += 1
+        if gone != 2: viol.append(('harness', '%d of 2 artifacts found in the archive' % gone))
+        R = e1.Dir(base + '/refw/proj'); R.reset(); R.sync(w7.files(v, base))
+        rc, out, log = bob(R, v, ['--download', 'no'], nonce='new')
+        rp = e1.result_path(out)
+        want = e1.tree_canon(os.path.join(R.d, rp[0])) if rc == 0 and rp else None
+        for m in ('yes', 'deps'):
+            Dn = e1.Dir(base + '/d/else/where/proj'); Dn.reset(); Dn.sync(w7.files(v, base))
+            rc, out, log = bob(Dn, v, ['--download', m], nonce='new')
+            if rc != 0:
+                viol.append(('download-build-fails:wrong-prediction', 'mode %s: %s' % (m, out[-250:])))
+            else:
+                rp = e1.result_path(out)
+                got = e1.tree_canon(os.path.join(Dn.d, rp[0])) if rp else None
+                if got != want:
+                    viol.append(('download-differs-from-local-build:wrong-prediction', 'mode %s, the checkout of dl differs from what its live build-id predicted: %s' % (m, c01._diff(got, want))))
+            shutil.rmtree(base + '/d', ignore_errors=True)
+        shutil.rmtree(base, ignore_errors=True)
+        return job, nrun, viol, 0
     # ---- uploader
     U = e1.Dir(base + '/u/proj'); U.reset()
     v = w1.zero(); n = 0; host = 'hostA'; dirty = False
@@ -159,6 +192,7 @@ def run(ctx):
         for h in itertools.product(U_ACTIONS, repeat=L):
             if len(set(h)) < len(h) and L > 1 and not any(a.startswith('e:') for a in h): continue
             hists.append(h)
+    hists.append(('wrongpred',))
     nrun = ndl = 0
     for job, n, viols, d in runner.pmap_unordered(universe_worker, [(h, quick) for h in hists], chunksize=1):
         nrun += n; ndl += d
